@@ -139,6 +139,7 @@ def get_unified_diff_hunks(lines, ignore_garbage=False):
 
     hunk_orig_i = 0
     hunk_modified_i = 0
+    line_num = 0
 
     # Go through each hunk of the diff, trying to find the number of lines
     # of context shown at the beginning of the hunk. This will usually be
